@@ -78,6 +78,9 @@ func decodeCborLinkListFromAny(maybeList any) (List__Link, error) {
 			if !ok {
 				return nil, fmt.Errorf("expected cbor tag content to be []byte, got %T", rawTag.Content)
 			}
+			if len(rawBytes) < 1 {
+				return nil, fmt.Errorf("expected cbor tag content to have at least 1 byte, got 0")
+			}
 			// the tag content is the _cid.Cid, after the first byte
 			_, _cid, err := cid.CidFromBytes(rawBytes[1:])
 			if err != nil {
@@ -392,6 +395,9 @@ func (x *Block) UnmarshalCBOR(data []byte) error {
 		rawBytes, ok := rawTag.Content.([]byte)
 		if !ok {
 			return fmt.Errorf("expected cbor tag content to be []byte, got %T", rawTag.Content)
+		}
+		if len(rawBytes) < 1 {
+			return fmt.Errorf("expected cbor tag content to have at least 1 byte, got 0")
 		}
 		_, _cid, err := cid.CidFromBytes(rawBytes[1:])
 		if err != nil {
